@@ -328,7 +328,12 @@ def check_input_forms(ctx, repo, qual=NEW):
         got = pairs_of(out[1])
         if got is None:
             raise Unknown(c, f"unrecognised construction result {out[1]!r}", fn)
-        if got == want:
+        given_keys = kw.get("keys") if "keys" in kw else (args[1] if len(args) > 1 else None)
+        if got == want and given_keys is not None and all(isinstance(k, int) for k in given_keys) \
+                and tuple(out[1].attrs["_keys"]) != tuple(given_keys):
+            ctx.violation(c, f"construction from {label} stores the keys as {tuple(out[1].attrs['_keys'])}, not in the given "
+                             f"order {tuple(given_keys)}: the storage order of an operand is part of its key pattern", fn)
+        elif got == want:
             ctx.ok(c, fn, pairs=got)
         else:
             ctx.violation(c, f"construction from {label} gives {got}, expected {want}: a supplied coefficient is "
@@ -346,7 +351,12 @@ def check_input_forms(ctx, repo, qual=NEW):
         raise Unknown(c, str(exc), fn)
     got = pairs_of(out[1]) if out[0] == "return" else None
     want = {4: "x3", 3: "x12"}
-    if got == want:
+    if got == want and tuple(out[1].attrs["_keys"]) != (4, 3):
+        ctx.violation(c, f"symbolic construction by name with keys (4, 3) stores the keys as {tuple(out[1].attrs['_keys'])}: the "
+                         f"symbolic operand of a cache miss no longer has the storage order of the key pattern it is "
+                         f"generated for, so the generated function unpacks coefficients in another order than they are "
+                         f"passed", fn)
+    elif got == want:
         ctx.ok(c, fn, pairs=got)
     elif got is None:
         raise Unknown(c, f"symbolic construction gives {out!r}", fn)
